@@ -16,6 +16,8 @@ def main():
         seed = int(os.environ.get("VERIF_SEED", "0"))
     except ValueError:
         seed = 0
+    if a.replay:
+        a.replay = os.path.abspath(a.replay)
     from . import stage
     t0 = time.time()
     base = stage.stage()
